@@ -117,31 +117,55 @@ theorem mergeArgs_valid (rec : String → Option Val → Val → Except Err Val)
 /-- `discard_init_args_on_class_path_change`: what survives is valid for the NEW class -/
 theorem keepArgs_valid (rec : String → Option Val → Val → Except Err Val) (params : List IParam) (pia : KV) :
     ArgsValid params (keepArgs rec params pia) := by
-  intro e he
-  simp only [keepArgs, List.mem_filter] at he
-  obtain ⟨_, hk⟩ := he
+  intro e' he'
+  simp only [keepArgs, List.mem_filterMap] at he'
+  obtain ⟨e, _, hk⟩ := he'
   split at hk
   · cases hk
   · rename_i p hp
-    refine ⟨p, hp, ?_⟩
-    cases hty : p.ty with
-    | scalar t =>
-      rw [hty] at hk
-      simp only [adaptValueWith] at hk
-      cases hc : coerceScalar t e.2 with
-      | none => simp [hc, isOk] at hk
-      | some y => simp [fits, hc]
-    | optScalar t =>
-      rw [hty] at hk
-      simp only [adaptValueWith] at hk
-      by_cases hn : isNone e.2 = true
-      · exact Or.inl hn
-      · simp only [hn, Bool.false_eq_true, if_false] at hk
-        cases hc : coerceScalar t e.2 with
-        | none => simp [hc, isOk] at hk
-        | some y => exact Or.inr (by simp [hc])
-    | cls b => trivial
-    | optCls b => trivial
+    split at hk
+    · cases hk
+    · rename_i y hy
+      have hf := fits_of_adaptValue rec p.ty none e.2 y hy
+      cases hty : p.ty with
+      | scalar t =>
+        simp only [hty] at hk
+        cases hk
+        exact ⟨p, hp, hty ▸ hf⟩
+      | optScalar t =>
+        simp only [hty] at hk
+        cases hk
+        exact ⟨p, hp, hty ▸ hf⟩
+      | cls b =>
+        simp only [hty] at hk
+        cases hk
+        exact ⟨p, hp, by rw [hty]; trivial⟩
+      | optCls b =>
+        simp only [hty] at hk
+        cases hk
+        exact ⟨p, hp, by rw [hty]; trivial⟩
+
+/-- every survivor comes from a previous init arg that the new class has a parameter for and accepts -/
+theorem keepArgs_origin (rec : String → Option Val → Val → Except Err Val) (params : List IParam) (pia : KV) :
+    ∀ e' ∈ keepArgs rec params pia, ∃ e ∈ pia, e'.1 = e.1 ∧
+      ∃ p, findParam params e.1 = some p ∧ isOk (adaptValueWith rec p.ty none e.2) = true := by
+  intro e' he'
+  simp only [keepArgs, List.mem_filterMap] at he'
+  obtain ⟨e, hmem, hk⟩ := he'
+  refine ⟨e, hmem, ?_⟩
+  split at hk
+  · cases hk
+  · rename_i p hp
+    split at hk
+    · cases hk
+    · rename_i y hy
+      have hkey : e'.1 = e.1 := by
+        cases hty : p.ty <;> simp only [hty] at hk <;> cases hk <;> rfl
+      exact ⟨hkey, p, hp, by simp [hy, isOk]⟩
+
+theorem keepArgs_append (rec : String → Option Val → Val → Except Err Val) (params : List IParam) (a b : KV) :
+    keepArgs rec params (a ++ b) = keepArgs rec params a ++ keepArgs rec params b := by
+  simp [keepArgs]
 
 theorem coerceScalar_none_of_isNone (t : String) (v : Val) (ht : t ≠ "NoneType") (h : isNone v = true) :
     coerceScalar t v = none := by
@@ -162,13 +186,18 @@ theorem coerceScalar_none_of_isNone (t : String) (v : Val) (ht : t ≠ "NoneType
   | nested _ _ => rfl
 
 /-- a `None` carried over from the previous class is discarded when the NEW class's parameter of that name is a
-    non-Optional scalar -/
-theorem keepArgs_drops_none (rec : String → Option Val → Val → Except Err Val) (params : List IParam) (pia : KV)
+    non-Optional scalar: the entry contributes nothing to what is kept -/
+theorem keepArgs_drops_none (rec : String → Option Val → Val → Except Err Val) (params : List IParam) (rest : KV)
     (e : String × Val) (p : IParam) (t : String) (hp : findParam params e.1 = some p) (hty : p.ty = .scalar t)
-    (ht : t ≠ "NoneType") (hn : isNone e.2 = true) : e ∉ keepArgs rec params pia := by
-  intro hmem
-  simp only [keepArgs, List.mem_filter, hp, hty, adaptValueWith, coerceScalar_none_of_isNone t e.2 ht hn, isOk] at hmem
-  exact absurd hmem.2 (by simp)
+    (ht : t ≠ "NoneType") (hn : isNone e.2 = true) :
+    keepArgs rec params (e :: rest) = keepArgs rec params rest := by
+  simp [keepArgs, hp, hty, adaptValueWith, coerceScalar_none_of_isNone t e.2 ht hn]
+
+/-- an init arg the new class has no parameter for contributes nothing to what is kept -/
+theorem keepArgs_drops_unknown (rec : String → Option Val → Val → Except Err Val) (params : List IParam) (rest : KV)
+    (e : String × Val) (hp : findParam params e.1 = none) :
+    keepArgs rec params (e :: rest) = keepArgs rec params rest := by
+  simp [keepArgs, hp]
 
 /-- every key that is not a parameter of THIS class makes the merge fail -/
 theorem mergeArgs_unknown (rec : String → Option Val → Val → Except Err Val) (params : List IParam) :
